@@ -83,7 +83,7 @@ Lemma has_dir_plain : forall l d, plain_attrs l -> has_dir mgr l d = false.
 Proof. intros l d Hl. unfold has_dir, prefix. apply has_attr_named_plain. exact Hl. Qed.
 
 Lemma init_plain : forall mask tok sc, plain_attrs (t_attrs tok) ->
-  str_eqb (map to_lower (t_name tok)) (m_tag_prefix mgr ++ d_block) = false ->
+  str_eqb (block_key to_lower (t_name tok)) (m_tag_prefix mgr ++ d_block) = false ->
   init_lstate to_lower mgr mask tok sc = mkL sc false CDefault (cLT :: t_name tok) [] [] false.
 Proof.
   intros mask tok sc Ha Hb. unfold init_lstate. cbv zeta. rewrite Hb.
